@@ -6,6 +6,9 @@ ASSUME \A n \in 1 .. 4 : \A w \in [1 .. n -> 0 .. 3] :
 ASSUME \A k \in 12 .. 16 : \A z \in 0 .. k - 1 :
           LET w == [i \in 1 .. k |-> IF i <= z THEN 0 ELSE i] IN StructureOK(w, 200, 1000)
 ASSUME Runs(<<0, 1, 2, 5, 7, 8>>) = <<<<0, 2>>, <<5, 5>>, <<7, 8>>>>
+\* the maximum difference of the first line is the spread of the adjustment data, for every data vector over 0 .. 3 of up to 4 channels
+ASSUME \A n \in 1 .. 4 : \A a \in [1 .. n -> 0 .. 3] : MaxDiffIsSpread(a)
+ASSUME MaxDiff(<<3>>) = 0 /\ MaxDiff(<<1, 4, 2>>) = 3
 VARIABLE z
 Init == z = 0
 Next == z < 1 /\ z' = z + 1
